@@ -70,9 +70,11 @@ impl Numeric {
                     Numeric::Rational(rem),
                 )
             }
-            Parity::Float(left, right) => {
-                (Numeric::Float(left / right), Numeric::Float(left % right))
-            }
+            Parity::Float(left, right) => (
+                // The quotient is a whole number, like the rational one.
+                Numeric::Float((left / right).trunc()),
+                Numeric::Float(left % right),
+            ),
         }
     }
 
